@@ -32,9 +32,10 @@ SPECS = {
     'Diff3': (['v3'], ['s']),        # x[0] - x[1]: hands a sensitivity [g, -g, 0] (entries cancel) to its input
     'RevIn': (['v3'], ['v3']),       # consumes x[::-1] (a slice as long as its base, in another order) through Sq
     'PermIn': (['v3'], ['v3']),      # consumes x[[2, 0, 1]] through Sq
+    'Add3': (['v3', 'v3', 'v3'], ['v3']),   # a + b + c; its sensitivity hands the SAME array object to all three inputs
 }
 COMPLEX_SUB = ['MkC', 'CNorm', 'Re', 'Im', 'Sq2']
-USER_ONLY = ['Sq3', 'Sq2', 'L32', 'L23', 'Mul3', 'Mul2', 'Fan3', 'SlIn', 'SlOut', 'SMul3', 'Diff3', 'RevIn', 'PermIn']
+USER_ONLY = ['Sq3', 'Sq2', 'L32', 'L23', 'Mul3', 'Mul2', 'Fan3', 'SlIn', 'SlOut', 'SMul3', 'Diff3', 'RevIn', 'PermIn', 'Add3']
 
 
 def forward(name, xs):
@@ -90,6 +91,8 @@ def forward(name, xs):
     if name == 'Im':
         z = xs[0]
         return [z[2:]], [[np.hstack([np.zeros((2, 2)), np.eye(2)])]]
+    if name == 'Add3':
+        return [xs[0] + xs[1] + xs[2]], [[np.eye(3), np.eye(3), np.eye(3)]]
     if name == 'Diff3':
         x = xs[0]
         return [np.array([x[0] - x[1]])], [[np.array([[1.0, -1.0, 0.0]])]]
